@@ -107,7 +107,7 @@ def main():
     finally:
         if not os.environ.get("VERIF_KEEP"):
             run.cleanup()
-    if broken and not any(found for _, found, _ in rep.violations):
+    if broken:
         rep.violation("obligation no longer checks, and the search found no input on which the property fails: "
                       + " | ".join(b[:400] for b in broken),
                       {"property": prop.id, "broken_obligations": broken, "searched": rep.evaluations,
